@@ -10,6 +10,15 @@ COMMON_TRUSTED = [
 ]
 
 PROPS = {
+    "C01": {
+        "level_text": "Coq theorems (axiom-free) over Gallina models of the three accelerations: node-kind dispatch (potential_kinds is sound for EVERY rule: whatever a rule matches has one of its potential kinds, hence FindAllNodes, RuleCore::do_match's kind pre-check and CombinedScan's kind table never drop a match), the pre-order traversal (find_all = the nodes the matcher matches individually, in document order; the overlap-free visitor keeps exactly the outermost matches) and CombinedScan (the findings attributed to a rule are those of the rule alone, whatever other rules are scanned together), plus the literal prefilter (Pattern::fixed_string, strictness-aware after a fix). Tied on every run: potential_kinds, find_all, both visitors, CombinedScan and fixed_string of the implementation vs the extracted model on real trees of 23 languages; direct oracle: all of them against matching each node individually; the CLI (sg run / sg scan, with and without --strictness, --stdin) against the library on the same files",
+        "level_note": "trusted: Coq kernel, extraction + driver, Rust harness; CLI argument parsing, file walking and printing are tied (correspondence), not proved; the construction-time caching of potential kinds in All/Any is not modelled (a stale lookup can only widen the set); unnamed tokens are compared by kind only, so the prefilter theorem assumes their text is determined by their kind",
+        "streams": ["c01", "c01cli"],
+        "cli": True,
+        "stream_timeout": 2400,
+        "trusted": ["the matcher enters the traversal/scan models as the set of nodes it matches individually (computed by the implementation per node): exactly the quantity the property compares against"],
+        "assumptions": ["node ids unique within a document"],
+    },
     "C02": {
         "level_text": "Coq theorems (axiom-free) over a Gallina model of Pattern::match_node_with_env / convert_node_to_pattern: for EVERY tree, every recogniser of meta-variable spellings, every set of non-overlapping holes and trailing ellipsis runs and all five strictness levels the cut pattern matches the code it was cut from and the resulting environment is exactly the recorded bindings (C02_cut_matches, C02_self_match). The model is tied to the code on every run: real tree-sitter parses of 23 languages are dumped, the implementation and the extracted model are run on the same (pattern, node) pairs and outcomes + environments are diffed; the direct oracle runs the property itself on the implementation (cut, re-parse, match at 5 levels, compare bound ranges)",
         "level_note": "trusted: Coq kernel, extraction (ExtrOcamlBasic only) + OCaml driver, Rust harness; the precondition that the holed text re-parses to the same tree shape is decided per case on the real re-parsed pattern and skipped cases are counted, not proved",
@@ -51,6 +60,14 @@ PROPS = {
         "cli": False,
         "trusted": ["tree-sitter parse of the corpus sources (node ranges are taken from the real parse)"],
         "assumptions": ["the sigil is the single byte '$'; captured ranges are byte ranges of the document; the indentation clause is checked only for captures without blank or under-indented continuation lines (the property's own restriction)"],
+    },
+    "C14": {
+        "level_text": "Coq theorems (axiom-free) over a Gallina model of CombinedScan's two passes (suppression collection keyed by the governed line, matching pass, used/unused bookkeeping) and of parse_suppression_set: a finding is dropped iff a suppression comment governs the line where it starts and lists the rule id or lists nothing (the declarative side is written from the property text, independently of the table), every other finding is reported, a comment is reported unused iff it silenced nothing, and the id-list syntax is parsed exactly. Tied on every run: CombinedScan on generated sources of 16 languages (own-line / trailing comments, irregular id lists, several findings and several comments per line, overlapping rules) vs the extracted model on the dumped tree; direct oracle: a line-based expectation computed from the generator's own record of the comments",
+        "level_note": "trusted: Coq kernel, extraction + driver, Rust harness; str::trim is modelled for ASCII white space only; tree-sitter recognising each comment as one comment node is checked per source (skipped sources are counted)",
+        "streams": ["c14"],
+        "cli": False,
+        "trusted": ["each rule enters the model as the set of nodes it matches individually"],
+        "assumptions": ["well-formed suppression comments on single-line statements, as the property says"],
     },
     "C19": {
         "level_text": "Coq theorems (axiom-free) over a Gallina model of the tree-sitter cursor iterators and the Node navigation API: Pre/Post/Level unfold to exactly the recursive pre-/post-/level-order list of the subtree (each node once, in order, nothing outside; any number of next() calls yields a prefix), ancestors is the chain of parents, next_all/prev_all are the iterated siblings for every node including the root, child ranges nest, and get_char_column / position equal the newline and character counts of the prefix. Tied on every run: the public API on every node of real and token-mutated (error-containing, CRLF, lone-CR, multi-byte, empty) trees of all 23 languages vs the extracted model on the dumped tree; direct oracle: the API against recursive baselines computed from children() and against the bytes",
